@@ -55,67 +55,74 @@ def run(tier, seed, replay=None):
         with open(replay) as f:
             r = json.load(f)["case"]
         pairs = [(r["tissue"], 0, r["shift"])]
+        replay_variant = r.get("variant", "m1d0")
     niter = 25 if tier == "quick" else 60
-    scns = []
-    for name, j, t in pairs:
-        base = tc.scenario("%s_%d_A" % (name, j), T[name], [], T_ns=100 * niter, threads=1, seed=seed, level_lmin=0.2531 * R)     # no edge length of the symmetric test spheres ties with a threshold
-        base["dump_positions"] = True
-        sh = dict(base, name="%s_%d_B" % (name, j), cells=shifted(T[name], t))
-        scns += [base, sh]
-    results = tc.run_scenarios("m1d0", scns, work, timeout=900)
-    by = {s["name"]: (s, ev, rc) for s, ev, rc, txt, ep in results}
+    # every contact model has its own broad phase (node lookup, face registration): the default model on every pair, the two others on
+    # the tissues with contacts
+    sub = [pr for pr in pairs if pr[0] in ("adhering", "overlap_types")]
+    sub = sub if tier == "thorough" else sub[1::2]
+    plan = [(replay_variant, pairs)] if replay else [("m1d0", pairs), ("m0d0", sub), ("m2d0", sub)]
     ntr = 0
-    for name, j, t in pairs:
-        sa, A, rca = by["%s_%d_A" % (name, j)]
-        sb, B, rcb = by["%s_%d_B" % (name, j)]
-        case = {"tissue": name, "shift": t}
-        if rca != 0 or rcb != 0 or not A or not B or A[-1].get("e") != "end" or B[-1].get("e") != "end":
-            chk.violation("crash:%s:%s" % (name, t), "a solver run of the pair %s / shift %s terminated abnormally" % (name, t), case)
-            continue
-        fa, fb = A[-1].get("final", []), B[-1].get("final", [])
-        mag = max(abs(x) for x in t) + 10 * R
-        ptol = 1e-9 * R + 64 * 2.3e-16 * mag * niter            # rounding of absolute coordinates accumulates per iteration
-        pos_ok = vol_ok = pr_ok = len(fa) == len(fb)
-        worst = [0.0, 0.0, 0.0]
-        for ca, cb in zip(fa, fb):
-            if len(ca["pos"]) != len(cb["pos"]) or ca["id"] != cb["id"]:
-                pos_ok = False
+    for variant, vpairs in plan:
+        scns = []
+        for name, j, t in vpairs:
+            base = tc.scenario("%s_%d_%s_A" % (name, j, variant), T[name], [], T_ns=100 * niter, threads=1, seed=seed, level_lmin=0.2531 * R)     # no edge length of the symmetric test spheres ties with a threshold
+            base["dump_positions"] = True
+            sh = dict(base, name="%s_%d_%s_B" % (name, j, variant), cells=shifted(T[name], t))
+            scns += [base, sh]
+        results = tc.run_scenarios(variant, scns, work, timeout=900)
+        by = {s["name"]: (s, ev, rc) for s, ev, rc, txt, ep in results}
+        for name, j, t in vpairs:
+            sa, A, rca = by["%s_%d_%s_A" % (name, j, variant)]
+            sb, B, rcb = by["%s_%d_%s_B" % (name, j, variant)]
+            case = {"tissue": name, "shift": t, "variant": variant}
+            if rca != 0 or rcb != 0 or not A or not B or A[-1].get("e") != "end" or B[-1].get("e") != "end":
+                chk.violation("crash:%s:%s" % (name, t), "a solver run of the pair %s / shift %s terminated abnormally" % (name, t), case)
                 continue
-            for q in range(0, len(ca["pos"])):
-                dlt = abs(cb["pos"][q] - (ca["pos"][q] + t[q % 3]))
-                worst[0] = max(worst[0], dlt)
-            worst[1] = max(worst[1], abs(ca["vol"] - cb["vol"]) / abs(ca["vol"]))
-            worst[2] = max(worst[2], abs(ca["press"] - cb["press"]) / (abs(ca["press"]) + 1.0))
-        rel = 1e-7 + 1e3 * 2.3e-16 * (mag / R) ** 2 * niter          # volume formula multiplies absolute coordinates
-        pos_ok = pos_ok and worst[0] <= ptol * 50 + rel * R
-        vol_ok = vol_ok and worst[1] <= rel
-        pr_ok = pr_ok and worst[2] <= rel * 10
-        zipped = [{"a": a, "b": b} for a, b in zip(A, B)]
-        for z in zipped:
-            for side in ("a", "b"):
-                z[side] = {k: v for k, v in z[side].items() if k not in ("final", "digest", "parsed")}
-        zipped[-1]["same_length"] = len(A) == len(B)
-        zipped[-1]["num"] = {"pos_match": pos_ok, "vol_match": vol_ok, "press_match": pr_ok}
-        p = os.path.join(work, "pair_%s_%d.ndjson" % (name, j))
-        vlib.write_ndjson(p, zipped)
-        res = vlib.tlc(SPEC, "PairTrace", "PairTrace.cfg", workers=1, env={"OBS": p}, cont=True, timeout=900, xmx="3g", metadir=os.path.join(work, "md_%s_%d" % (name, j)))
-        if res.model_error:
-            raise ModelError("PairTrace failed on %s: rc=%d\n%s" % (name, res.rc, res.out[-2500:]))
-        chk.cov["states"] += res.distinct
-        chk.cov["transitions"] += res.generated
-        ntr += 1
-        tags = set()
-        for block in re.split(r"Error: Invariant ", res.out)[1:]:
-            m = re.match(r"(P_\w+) is violated", block)
-            ls = re.findall(r"/\\ l = (\d+)", block)
-            if m:
-                tags.add((m.group(1), int(ls[-1]) if ls else 0))
-        for tag, line in sorted(tags):
-            where = zipped[line - 1]["a"] if 0 < line <= len(zipped) else {}
-            chk.violation("impl:%s:%s:%s" % (tag, name, t), "tissue '%s' translated by %s: %s at event %d %s; worst deviations: position %.3e m, volume %.3e, pressure %.3e (relative)" % (
-                name, t, tag, line, json.dumps({k: where.get(k) for k in ("e", "k", "iter")}), worst[0], worst[1], worst[2]), case)
-        if len(chk.cov["samples"]) < 4:
-            chk.sample({"tissue": name, "shift": t, "events": len(zipped), "worst_position_dev_m": worst[0], "worst_volume_rel": worst[1], "worst_pressure_rel": worst[2]})
+            fa, fb = A[-1].get("final", []), B[-1].get("final", [])
+            mag = max(abs(x) for x in t) + 10 * R
+            ptol = 1e-9 * R + 64 * 2.3e-16 * mag * niter            # rounding of absolute coordinates accumulates per iteration
+            pos_ok = vol_ok = pr_ok = len(fa) == len(fb)
+            worst = [0.0, 0.0, 0.0]
+            for ca, cb in zip(fa, fb):
+                if len(ca["pos"]) != len(cb["pos"]) or ca["id"] != cb["id"]:
+                    pos_ok = False
+                    continue
+                for q in range(0, len(ca["pos"])):
+                    dlt = abs(cb["pos"][q] - (ca["pos"][q] + t[q % 3]))
+                    worst[0] = max(worst[0], dlt)
+                worst[1] = max(worst[1], abs(ca["vol"] - cb["vol"]) / abs(ca["vol"]))
+                worst[2] = max(worst[2], abs(ca["press"] - cb["press"]) / (abs(ca["press"]) + 1.0))
+            rel = 1e-7 + 1e3 * 2.3e-16 * (mag / R) ** 2 * niter          # volume formula multiplies absolute coordinates
+            pos_ok = pos_ok and worst[0] <= ptol * 50 + rel * R
+            vol_ok = vol_ok and worst[1] <= rel
+            pr_ok = pr_ok and worst[2] <= rel * 10
+            zipped = [{"a": a, "b": b} for a, b in zip(A, B)]
+            for z in zipped:
+                for side in ("a", "b"):
+                    z[side] = {k: v for k, v in z[side].items() if k not in ("final", "digest", "parsed")}
+            zipped[-1]["same_length"] = len(A) == len(B)
+            zipped[-1]["num"] = {"pos_match": pos_ok, "vol_match": vol_ok, "press_match": pr_ok}
+            p = os.path.join(work, "pair_%s_%d.ndjson" % (name, j))
+            vlib.write_ndjson(p, zipped)
+            res = vlib.tlc(SPEC, "PairTrace", "PairTrace.cfg", workers=1, env={"OBS": p}, cont=True, timeout=900, xmx="3g", metadir=os.path.join(work, "md_%s_%d" % (name, j)))
+            if res.model_error:
+                raise ModelError("PairTrace failed on %s: rc=%d\n%s" % (name, res.rc, res.out[-2500:]))
+            chk.cov["states"] += res.distinct
+            chk.cov["transitions"] += res.generated
+            ntr += 1
+            tags = set()
+            for block in re.split(r"Error: Invariant ", res.out)[1:]:
+                m = re.match(r"(P_\w+) is violated", block)
+                ls = re.findall(r"/\\ l = (\d+)", block)
+                if m:
+                    tags.add((m.group(1), int(ls[-1]) if ls else 0))
+            for tag, line in sorted(tags):
+                where = zipped[line - 1]["a"] if 0 < line <= len(zipped) else {}
+                chk.violation("impl:%s:%s:%s:%s" % (tag, variant, name, t), "tissue '%s' translated by %s: %s at event %d %s; worst deviations: position %.3e m, volume %.3e, pressure %.3e (relative)" % (
+                    name, t, tag, line, json.dumps({k: where.get(k) for k in ("e", "k", "iter")}), worst[0], worst[1], worst[2]), case)
+            if len(chk.cov["samples"]) < 4:
+                chk.sample({"tissue": name, "shift": t, "events": len(zipped), "worst_position_dev_m": worst[0], "worst_volume_rel": worst[1], "worst_pressure_rel": worst[2]})
     chk.cov["traces_validated_against_impl"] = ntr
     chk.cov["evaluations"] = ntr
     chk.cov["distinct_nontrivial"] = len(pairs)
